@@ -127,7 +127,11 @@ func checkAggrPlacement(expr Expression, evaluated bool) error {
 		}
 		return checkAggrPlacement(e.Right, evaluated)
 	case *FieldReferenceExpr:
-		return checkAggrPlacement(e.FieldExpr, evaluated)
+		// The field it names is a select field and is checked as such; used
+		// where nothing is evaluated it must not bring an aggregate along
+		if !evaluated && containsAggrFunc(e.FieldExpr) {
+			return NewSyntaxError(e.GetPos(), "Aggregate function is not allowed here: field %s", e.Name)
+		}
 	case *NotExpr:
 		return checkAggrPlacement(e.Right, false)
 	case *FieldAccessExpr:
